@@ -48,7 +48,7 @@ class Operator(Token):
                 self.stack,
                 f"Operand {self.value} is not supported for type '{left}' and '{right}'",
             )
-        except OverflowError:
+        except (OverflowError, MemoryError):
             raise ExceededLimitError(
                 self.stack, f"The result of operand {self.value} is too large."
             )
